@@ -125,6 +125,7 @@ class Engine(ExprMixin, StmtMixin, CallMixin, EngineBase):
         st = State()
         st.alloc = z3.Const("alloc0", z3.ArraySort(self.S.Ref, z3.BoolSort()))
         st.assume(z3.Not(z3.Select(st.alloc, self.S.null)))
+        st.assume(self.lib.isascii(z3.StringVal("")))
         # parameters
         a = fdef.args
         names = [x.arg for x in a.posonlyargs + a.args + a.kwonlyargs]
